@@ -10,6 +10,7 @@ package main
 import (
 	"fmt"
 	"go/ast"
+	"go/token"
 	"go/types"
 	"strings"
 )
@@ -29,7 +30,8 @@ func ruleC16Registry(p *Prog, r *Res) {
 		p.anchorFail("converters.CachedConverter.InvalidateChangedStreams / manager.Manager.converters")
 		return
 	}
-	n := 0
+	matches := p.Field("manager", "tag", "Matches")
+	n, exempt := 0, 0
 	for _, f := range p.FnList {
 		if f.Short != "manager" || f.Body() == nil {
 			continue
@@ -43,6 +45,38 @@ func ruleC16Registry(p *Prog, r *Res) {
 			fn := p.Callee(f.Pkg, c)
 			if fn == nil || fn.Origin() != inv {
 				return true
+			}
+			// not an invalidation of changed streams: the mask is built from a tag's Matches (a detach drops the output
+			// only that tag had asked for — of the one converter that is detached)
+			if matches != nil && len(c.Args) == 1 {
+				a := ast.Unparen(c.Args[0])
+				if u, ok := a.(*ast.UnaryExpr); ok {
+					a = ast.Unparen(u.X)
+				}
+				if o := identObj(info, a); o != nil {
+					fromMatches := false
+					inspectShallow(f.Body(), func(y ast.Node) bool {
+						as, ok := y.(*ast.AssignStmt)
+						if !ok || as.Tok != token.DEFINE || len(as.Lhs) != len(as.Rhs) {
+							return true
+						}
+						for i, l := range as.Lhs {
+							if identObj(info, l) == o {
+								ast.Inspect(as.Rhs[i], func(z ast.Node) bool {
+									if e, ok := z.(ast.Expr); ok && isFieldOf(info, e, matches) {
+										fromMatches = true
+									}
+									return true
+								})
+							}
+						}
+						return true
+					})
+					if fromMatches {
+						exempt++
+						return true
+					}
+				}
 			}
 			n++
 			key := fmt.Sprintf("%s InvalidateChangedStreams receiver", f.Key())
@@ -71,6 +105,7 @@ func ruleC16Registry(p *Prog, r *Res) {
 			return true
 		})
 	}
+	r.Note("%s: %d calls with a mask built from a tag's Matches are not invalidations of changed streams (detach)", rule, exempt)
 	r.Floor(rule, 1, n)
 }
 
